@@ -49,7 +49,8 @@ COMPONENTS = {
 }
 PROBES = {"stale_old_value_sent": 1, "missing_object_sent": 1,
           "two_pushers_overlap": 1, "atomic_with_failure": 1,
-          "push_ng_reported": 1, "cas_lost_race": 1}
+          "push_ng_reported": 1, "cas_lost_race": 1,
+          "invalid_ref_name_sent": 1}
 MIN_BUDGET = 150
 
 ZERO = b"0" * 40
@@ -58,6 +59,7 @@ A, B, C_ = b"refs/heads/a", b"refs/heads/b", b"refs/heads/c"
 # command that passes every check and still fails when it is applied
 ASUB = b"refs/heads/a/sub"
 NAMES = [A, B, C_, ASUB]
+BADREF = b"refs/heads/bad..name"
 
 
 def budget(tier):
@@ -92,6 +94,12 @@ def gen_plan(seed, tier):
             cmd["old"] = rng.choice(["adv", "adv", "adv", "stale", "zero"]) \
                 if kind == "raw" else "adv"
             cmds.append(cmd)
+        if rng.random() < 0.1:
+            # one command names a ref that must be refused; where in the
+            # list it stands decides what has been applied by then
+            cmds.insert(rng.randrange(len(cmds) + 1),
+                        {"ref": BADREF.decode(), "new": "commit",
+                         "old": "zero"})
         pushers.append({
             "name": f"p{i}", "kind": kind, "cmds": cmds,
             "atomic": rng.random() < 0.35,
@@ -333,6 +341,8 @@ def run_plan(plan):
                     sim.stat("probe:missing_object_sent")
                 else:
                     new = res["newvals"][c["ref"]]
+                if ref == BADREF:
+                    sim.stat("probe:invalid_ref_name_sent")
                 cmds.append((old, new, ref))
             res["cmds"] = cmds
             return cmds
@@ -520,6 +530,28 @@ def run_plan(plan):
                         f"maybe={[(o[:8], w[:8], p) for o, w, p in maybe]}"})
                 if ng_cmds and overlap:
                     sim.stat("probe:cas_lost_race")
+            # a name that no backend may accept
+            if BADREF in final:
+                viols.append({"sig": "C06/invalid-ref-created",
+                              "detail": f"{BADREF!r} exists on the server"})
+            for r in results:
+                if (r["status"] or {}).get(BADREF) == "ok":
+                    viols.append({"sig": "C06/invalid-ref-reported-ok/" +
+                                  r["spec"]["kind"],
+                                  "detail": f"{r['status']}"})
+                # a push that dies without any fault having been injected:
+                # no report at all, whatever it had applied by then
+                if r["error"] and not netfired and not sim.abort_reason \
+                        and not plan["net"]["faults"]:
+                    sim.stat("probe:push_died_without_fault")
+                    exc = r["error"].split("(", 1)[0]
+                    viols.append({
+                        "sig": f"C06/push-died-without-fault/"
+                        f"{r['spec']['kind']}/{exc}",
+                        "detail": f"{r['spec']['name']} "
+                        f"atomic={r['spec']['atomic']} cmds="
+                        f"{[(o[:8], n_[:8], f) for o, n_, f in r['cmds'] or []]}"
+                        f" error={r['error']}"})
             # (iii) atomic pushes are all-or-nothing
             for r in results:
                 if not r["spec"]["atomic"] or r["status"] is None or \
